@@ -13,11 +13,13 @@ vars == <<n, f>>
 \* class "Raw": the valid file is given by its lines of tokens (files written by the real writers of the grid exchange
 \* formats): the fault layer applies, there is no reader model
 Base(k) == LET p == Picks[k] IN
-           IF p.c = "Raw" THEN [c |-> "Raw", o |-> <<>>, L |-> p.lines]
-           ELSE LET o == Instance(p.c, p.s, p.d) IN [c |-> p.c, o |-> o, L |-> FileW(p.c, o)]
+           IF p.c = "Raw" THEN [c |-> "Raw", o |-> <<>>, L |-> p.lines, RL |-> <<>>]
+           ELSE LET o == Instance(p.c, p.s, p.d) IN [c |-> p.c, o |-> o, L |-> FileW(p.c, o), RL |-> RolesW(p.c, o)]
 \* a base file must be valid: the intended reader gives the instance back (whether the real reader does is C08's business;
 \* RealOK: the transcription of the real reader reads it back without any memory-unsafe event)
-ValidBase(b) == b.c = "Raw" \/ LET ri == ReadF(b.c, b.L, "ideal") IN ri.ok /\ ri.o = b.o
+ValidBase(b) == b.c = "Raw" \/ (/\ LET ri == ReadF(b.c, b.L, "ideal") IN ri.ok /\ ri.o = b.o
+                               \* the roles are laid out like the tokens
+                               /\ (b.RL = <<>> \/ (Len(b.RL) = Len(b.L) /\ \A i \in DOMAIN b.L : Len(b.RL[i]) = Len(b.L[i]))))
 RealOK(b) == LET rr == ReadF(b.c, b.L, "real") IN rr.ok /\ rr.ev \cap UnsafeEvents = {}
 RealEv(b) == ReadF(b.c, b.L, "real").ev
 
@@ -25,6 +27,8 @@ FaultCase(k, b, j, ft) ==
   LET L2 == ApplyFault(b.L, ft)
       cl == Classify(b.c, L2, ft.kind # "trunc")      \* a truncated file does not end with a newline
   IN [base |-> k, j |-> j, c |-> b.c, kind |-> ft.kind, k |-> ft.k, t |-> ft.t, lines |-> L2,
+      \* role of the token replaced (what the specification knows of the domain of its field)
+      role |-> IF b.RL = <<>> \/ ft.kind \notin {"bound", "corrupt"} THEN "" ELSE TokAt(b.RL, ft.k).k,
       verdict |-> cl.verdict, iat |-> cl.iat, rok |-> cl.rok, rat |-> cl.rat,
       rev |-> SetToSeq(cl.rev), unsafe |-> SetToSeq(cl.unsafe), diverge |-> cl.diverge]
 
@@ -36,13 +40,13 @@ Next == /\ f = 0
         /\ n' = n
         /\ LET b == Base(n) IN
            IF ~ValidBase(b) THEN f' = -1
-           ELSE f' \in ({-2} \cup (1..NFaults(b.L)))
+           ELSE f' \in ({-2} \cup (1..NFaults(b.L, b.RL)))
 Emit == \/ f = 0
         \/ LET b == Base(n) IN
            CASE f = -1 -> PrintT(ToJson([base |-> n, c |-> b.c, kind |-> "invalid-base"]))
-             [] f = -2 -> PrintT(ToJson([base |-> n, c |-> b.c, kind |-> "base", lines |-> b.L, o |-> b.o, nfaults |-> NFaults(b.L), realok |-> RealOK(b),
+             [] f = -2 -> PrintT(ToJson([base |-> n, c |-> b.c, kind |-> "base", lines |-> b.L, o |-> b.o, nfaults |-> NFaults(b.L, b.RL), realok |-> RealOK(b),
                                              rev |-> SetToSeq(RealEv(b)), unsafe |-> SetToSeq(RealEv(b) \cap UnsafeEvents)]))
-             [] OTHER  -> LET ft == FaultAt(b.L, b.c, f) IN
+             [] OTHER  -> LET ft == FaultAt(b.L, b.RL, b.c, f) IN
                           IF ft.kind = "noop" THEN PrintT(ToJson([base |-> n, j |-> f, c |-> b.c, kind |-> "noop"]))
                           ELSE PrintT(ToJson(FaultCase(n, b, f, ft)))
 Spec == Init /\ [][Next]_vars
